@@ -374,7 +374,7 @@ func directional(lists ...[]*gen.NodeBP) bool {
 func TestCheckMerge(t *testing.T) {
 	s := harness.NewSub("merge-nodes-and-slices",
 		"MergeNodes on pairs of trees with the same root tag (independent, or an edited/permuted copy so that children overlap), MergeNodes(t,t), the error contract (nil side / different root tags), and MergeNodeSlices on pairs of node lists (0..5 trees each, overlapping and disjoint, duplicates) with the equality, always-merge and never-merge functions; each followed by a mutation of the result (add/delete/replace children at a random node, or add a leaf below every node); non-trivial = both sides have >= 2 children (elements) with >= 1 equal pair and >= 1 right-only child")
-	s.Rapid(t, harness.Share(harness.Pick(100000, 2500000)), 90, func(rt *rapid.T) {
+	s.Rapid(t, harness.Share(harness.Pick(100000, 10000000)), 90, func(rt *rapid.T) {
 		c := mergeCase{MutIdx: rapid.IntRange(0, 40).Draw(rt, "mutidx"), MutOp: rapid.SampledFrom([]string{"add", "delete", "setnil", "leaves", "leaves"}).Draw(rt, "mutop")}
 		c.Mode = rapid.SampledFrom([]string{"nodes", "nodes", "nodes", "self", "slices", "slices", "error"}).Draw(rt, "mode")
 		tree := gen.EqTree(gen.EqTreeOpts{MaxNodes: 16, Roles: true})
